@@ -280,6 +280,10 @@ def scan_for_exceptions(obj: Any, seen: set[int], path: str = "context") -> None
     if isinstance(obj, BaseException):
         raise SecurityError(f"Exception instance forbidden at {path}: {type(obj)}")
 
+    if isinstance(obj, str | bytes):
+        # NOTE: the characters of a str are str: only the cached ones have a stable id()
+        return
+
     if isinstance(obj, Mapping | Iterable):
         seen.add(obj_id)
         if isinstance(obj, Mapping):
